@@ -1,16 +1,31 @@
 (* d_sync.ml — driver for Model/Sync.v (C10 notes sync)
-   mode c10-run:  N (STEP...)      STEP = (commit C K V) | (ft C) | (ml C) | (pr C)
-     out: one group per step  (OUTCOME REMOTE (LOCAL0 LOCAL1 ...))  then  (fuel B) (known B)
-     where OUTCOME is - for steps other than pr, a map is ((K V)...) sorted by key *)
+   mode c10-run:  N (TOKEN...)
+     primitive tokens   (commit C K V) (ft C) (tl C) (ml C) (pr C)
+     user-level tokens  (push C) (fetch C)            the whole block, in the code's order
+                        (p0 C) (p1 C) (p01 C) (p2 C) (p3 C)   parts of a push cut at the rendezvous points
+                        (f01 C) (f2 C)                        parts of a fetch
+     out: one group per TOKEN  (OUTCOME REMOTE (LOCAL0 LOCAL1 ...))  then  (fuel B) (known B) (window B)
+     OUTCOME is - unless the token contains a pr step; a map is ((K V)...) sorted by key;
+     window = 1 when some commit fell into the copy window (no_commit_in_copy_window = false) *)
 let rec nat_of_int (n : int) : nat = if n <= 0 then O else S (nat_of_int (n - 1))
 let rec int_of_nat (n : nat) : int = match n with O -> 0 | S m -> 1 + int_of_nat m
 
-let step_of x = match list x with
-  | [Sym "commit"; c; k; v] -> Commit (nat_of_int (num c), n_of_int (num k), n_of_int (num v))
-  | [Sym "ft"; c] -> FetchTracking (nat_of_int (num c))
-  | [Sym "ml"; c] -> MergeLocal (nat_of_int (num c))
-  | [Sym "pr"; c] -> PushRef (nat_of_int (num c))
-  | _ -> failwith "step"
+let steps_of x = match list x with
+  | [Sym "commit"; c; k; v] -> [Commit (nat_of_int (num c), n_of_int (num k), n_of_int (num v))]
+  | [Sym "ft"; c] -> [FetchTracking (nat_of_int (num c))]
+  | [Sym "tl"; c] -> [TestLocal (nat_of_int (num c))]
+  | [Sym "ml"; c] -> [MergeLocal (nat_of_int (num c))]
+  | [Sym "pr"; c] -> [PushRef (nat_of_int (num c))]
+  | [Sym "push"; c] -> pushNotes (nat_of_int (num c))
+  | [Sym "fetch"; c] -> fetchNotes (nat_of_int (num c))
+  | [Sym "p0"; c] -> push_part0 (nat_of_int (num c))
+  | [Sym "p1"; c] -> push_part1 (nat_of_int (num c))
+  | [Sym "p01"; c] -> let c = nat_of_int (num c) in push_part0 c @ push_part1 c
+  | [Sym "p2"; c] -> push_part2 (nat_of_int (num c))
+  | [Sym "p3"; c] -> push_part3 (nat_of_int (num c))
+  | [Sym "f01"; c] -> let c = nat_of_int (num c) in fetch_part0 c @ fetch_part1 c
+  | [Sym "f2"; c] -> fetch_part2 (nat_of_int (num c))
+  | _ -> failwith "token"
 
 let show_map (m : (n * n) list) =
   let m = List.map (fun (k, v) -> (int_of_n k, int_of_n v)) (canon m) in
@@ -24,19 +39,23 @@ let show_pres = function
 let rec range a b = if a >= b then [] else a :: range (a + 1) b
 
 let c10_run body = match parse_many body with
-  | [n; steps] ->
+  | [n; toks] ->
       let n = num n in
-      let steps = List.map step_of (list steps) in
+      let toks = List.map steps_of (list toks) in
       let s = ref (init (nat_of_int n)) in
       let out = ref [] in
-      List.iter (fun x ->
-          let o = (match x with PushRef c -> Sym (show_pres (push_outcome !s c)) | _ -> Sym "-") in
-          s := exec !s x;
+      List.iter (fun steps ->
+          let o = ref (Sym "-") in
+          List.iter (fun x ->
+              (match x with PushRef c -> o := Sym (show_pres (push_outcome !s c)) | _ -> ());
+              s := exec !s x) steps;
           let locals = List.map (fun c -> show_map (local_map !s (nat_of_int c))) (range 0 n) in
-          out := L [o; show_map (remote_map !s); L locals] :: !out) steps;
+          out := L [!o; show_map (remote_map !s); L locals] :: !out) toks;
       let groups = List.rev !out in
+      let all = List.concat toks in
       String.concat " " (List.map show groups)
-      ^ Printf.sprintf " (fuel %s) (known %s)" (bool_s !s.fuel_out) (bool_s (known_C10 steps))
+      ^ Printf.sprintf " (fuel %s) (known %s) (window %s)" (bool_s !s.fuel_out) (bool_s (known_C10 all))
+          (bool_s (not (no_commit_in_copy_window (nat_of_int n) all)))
   | _ -> failwith "c10-run"
 
 let () = run_driver ["c10-run", c10_run] []
